@@ -98,6 +98,7 @@ type dealer struct {
 	calleeRegIDSet map[*wamp.Session]map[wamp.ID]struct{}
 
 	actionChan chan func()
+	closing    chan struct{}
 	stopped    chan struct{}
 
 	// Generate registration IDs.
@@ -139,6 +140,7 @@ func newDealer(logger stdlog.StdLog, strictURI, allowDisclose, debug bool) *deal
 		// critical section that does the only routing. So, and unbuffered
 		// channel is appropriate.
 		actionChan: make(chan func()),
+		closing:    make(chan struct{}),
 		stopped:    make(chan struct{}),
 
 		idGen: new(wamp.IDGen),
@@ -439,8 +441,11 @@ func (d *dealer) removeSession(sess *wamp.Session) {
 }
 
 // close stops the dealer, letting already queued actions finish.
+//
+// The action channel is not closed, since the timer goroutine of a call that
+// is still pending may try to submit an action after the dealer is closed.
 func (d *dealer) close() {
-	close(d.actionChan)
+	close(d.closing)
 	<-d.stopped
 	if d.debug {
 		d.log.Print("Dealer stopped")
@@ -448,10 +453,15 @@ func (d *dealer) close() {
 }
 
 func (d *dealer) run() {
-	for action := range d.actionChan {
-		action()
+	defer close(d.stopped)
+	for {
+		select {
+		case action := <-d.actionChan:
+			action()
+		case <-d.closing:
+			return
+		}
 	}
-	close(d.stopped)
 }
 
 func (d *dealer) syncRegister(callee *wamp.Session, msg *wamp.Register, match, invokePolicy string, disclose, forwardTimeout, wampURI bool) []*wamp.Publish { //nolint:lll
@@ -938,16 +948,25 @@ func (d *dealer) syncCall(caller *wamp.Session, msg *wamp.Call) {
 		// with mode=killnowait, and includes an error message argument "call
 		// timeout"
 		go func() {
-			<-timerCtx.Done()
+			select {
+			case <-timerCtx.Done():
+			case <-d.closing:
+				// The dealer was closed while the call was pending.
+				return
+			}
 			if errors.Is(timerCtx.Err(), context.Canceled) {
 				// Timer canceled. Got response from callee, or caller canceled
 				// or ended session.
 				return
 			}
-			d.actionChan <- func() {
+			select {
+			case d.actionChan <- func() {
 				errArgs := wamp.List{"call timeout"}
 				d.syncCancel(caller, &wamp.Cancel{Request: msg.Request},
 					wamp.CancelModeKillNoWait, wamp.ErrTimeout, errArgs)
+			}:
+			case <-d.closing:
+				// The dealer was closed while the call was pending.
 			}
 		}()
 	}
